@@ -3,11 +3,11 @@ import TextxVerif.LoadTree
 /-! JSON decoding / encoding for the load-tree driver (compiled with the library so that
 `lean --run Drivers/LoadTree.lean` starts fast). 
 ops:
-  {"op":"run","nclasses":n,"loads":[Load…],"kw"?:[{"attrs","assigned","contained","extras"}…]}
+  {"op":"run","nclasses":n,"loads":[Load…],"kw"?:[{"attrs","assigned","contained","extras","ops"?:[[isSet,name]…]}…]}
       → {"ok":bool,"events":[[kind,pid,lab,[[cnt,instr,saved,nkeys]…]]…],
          "final":[[cnt,instr,saved,nkeys]…],"restored":[bool…]}
      loads[0] is run from the clean state; hooks may start loads[k] (k = action)
-  {"op":"kwargs","attrs":[…],"assigned":[…],"contained":bool,"extras":[…]} → {"keys":[…]}
+  {"op":"kwargs","attrs":[…],"assigned":[…],"contained":bool,"extras":[…],"ops"?:[[isSet,name]…]} → {"keys":[…]}
 Load  = {"pid","classes":[…],"syntax_ok","immut","root":OT,"pre"?:Hook,"imports":[Load…],
          "resolve":[Hook…],"unresolved","oprocs":[Hook…],"mproc":Hook}
 OT    = {"conv":Hook} | {"cls"?:n,"init":Hook,"kids":[OT…]}
@@ -69,10 +69,20 @@ def cleanState (_n : Nat) : Sh Nat :=
 def snapJson (s : List (Nat × Bool × Bool × Nat)) : Json :=
   toJson (s.map fun (a, b, c, d) => Json.arr #[toJson a, toJson b, toJson c, toJson d])
 
+/-- `[[isSet, name]…]`; an absent field = no stores of user code -/
+def parseOps (j : Json) : Option (List Kw.Op) :=
+  match getArr? j "ops" with
+  | none => if (getObj? j "ops").isSome then none else some []
+  | some a => a.toList.mapM fun e => do
+    let xs ← asArr? e
+    let b ← asBool? (← xs[0]?)
+    let k ← asStr? (← xs[1]?)
+    if xs.size = 2 then pure (if b then Kw.Op.set k else Kw.Op.del k) else none
+
 def kwOne (j : Json) : Option Json :=
-  match getStrList? j "attrs", getStrList? j "assigned", getBool? j "contained", getStrList? j "extras" with
-  | some a, some s, some c, some e => some (toJson (Kw.kwargs a (Kw.collected a s c e)))
-  | _, _, _, _ => none
+  match getStrList? j "attrs", getStrList? j "assigned", getBool? j "contained", getStrList? j "extras", parseOps j with
+  | some a, some s, some c, some e, some ops => some (toJson (Kw.kwargs a c (Kw.collectedOps a s c e ops)))
+  | _, _, _, _, _ => none
 
 def handle (j : Json) : Json :=
   match getStr? j "op" with
@@ -94,9 +104,9 @@ def handle (j : Json) : Json :=
         ("kw", toJson kws)]
     | _, _, _ => badOp
   | some "kwargs" =>
-    match getStrList? j "attrs", getStrList? j "assigned", getBool? j "contained", getStrList? j "extras" with
-    | some a, some s, some c, some e => Json.mkObj [("keys", toJson (Kw.kwargs a (Kw.collected a s c e)))]
-    | _, _, _, _ => badOp
+    match kwOne j with
+    | some keys => Json.mkObj [("keys", keys)]
+    | none => badOp
   | _ => badOp
 
 
